@@ -73,6 +73,7 @@ def run(batch, n_runs):
     C.warm_dir(base)
     C.stale_grammar_dir(base)
     C.stale_grammar_dir(base, 'ruleorder')
+    C.stale_grammar_dir(base, 'ruletext')      # (every master is built here, in the parent: built lazily, two workers would race for it)
     for o in C.ORDERS:
         C.reference(base, o)        # computed once in the parent, inherited by the forked workers
     seed = batch.seed
